@@ -491,6 +491,26 @@ func runC05(c *Check) {
 				continue
 			}
 			for _, r := range rets {
+				if len(resultValues(r, i)) != 1 {
+					// a named result read back from its slot with stores on several paths (or none: the zero
+					// value): not a constant of this return
+					constant = false
+					continue
+				}
+				if u, ok := r.Results[i].(*ssa.UnOp); ok {
+					if a, isAlloc := u.X.(*ssa.Alloc); isAlloc {
+						inBlock := false
+						for _, in := range r.Block().Instrs {
+							if st, ok := in.(*ssa.Store); ok && st.Addr == ssa.Value(a) {
+								inBlock = true
+							}
+						}
+						if !inBlock {
+							constant = false
+							continue
+						}
+					}
+				}
 				for _, v := range resultValues(r, i) {
 					b, isC := isConstBool(v)
 					if !isC {
